@@ -912,15 +912,21 @@ func (c Identifiers[V]) AddArgs(names []string, outersUsed *[]string) Identifier
 		ident, ok := c(name)
 		if outersUsed != nil {
 			if ok && !ident.IsConst {
+				outer := name
+				if ident.ThisName != "" {
+					// name is an attribute of the implicit map (see AddMap),
+					// so the outer value which is used is the map itself
+					outer = ident.ThisName
+				}
 				found := false
 				for _, n := range *outersUsed {
-					if n == name {
+					if n == outer {
 						found = true
 						break
 					}
 				}
 				if !found {
-					*outersUsed = append(*outersUsed, name)
+					*outersUsed = append(*outersUsed, outer)
 				}
 			}
 		}
